@@ -28,16 +28,16 @@ IMPLEMENTED = {
  "C15": ("serde round trip of every explored state through 3 channels into both kinds + every pair sequence of <=4 pairs with repeats as input",
          "Round trips through JSON text and serde's non-self-describing SeqDeserializer (with and without length hint) from every state of the closure and the deep seeds, result == source, valid, every operation at depth 1; every small pair sequence (repeats included) must give Err or a valid queue, never a panic."),
  "C16": ("every drain consumption pattern (front j, back l, drop/forget) and clear from every reachable state; emptied queue vs fresh queue on all depth-2 operation sequences",
-         "After clear or any drain pattern (incl. leaked) the tables must equal those of a fresh queue and all depth-2 continuations must give identical returns and tables."),
+         "After clear or any drain pattern (incl. leaked) the tables must equal those of a fresh queue and all depth-2 continuations (refills by push and by extend) must give identical returns and tables; queues emptied in seven ways and refilled by pushes to every seed tree of 6..10 elements then run every operation under the lock-step oracle."),
 }
 
 IMPLEMENTED.update({
  "C05": ("comparison counter as oracle: maximum over every transition of the closed/seeded explorations per (operation, n), plus a fully enumerated grid of sizes x patterns x operations x target positions up to 2^16 (quick) / 2^20 (thorough)",
-         "Every Ord::cmp goes through the harness. (a) The exact maximum number of comparisons over ALL transitions of the small-scope explorations is checked against A*levels+B (single-element operations), C*n+D (bulk) and 0/1 (peeks, lookups). (b) On a finite grid n in {2^j-1,2^j,2^j+1} x 5 priority patterns x every single-element operation x root/children/last/first-leaf/first-and-last-of-every-level x {new minimum, new maximum, unchanged}, and for the bulk operations with a flatness test of cost/n. A bounded enumeration decides the stated bound at every n of the ladder; it cannot prove an asymptotic statement."),
+         "Every Ord::cmp goes through the harness. (a) The exact maximum number of comparisons over ALL transitions of the small-scope explorations is checked against A*levels+B (single-element operations), C*n+D (bulk) and 0/1 (peeks, lookups). (b) On a finite grid n in {2^j-1,2^j,2^j+1} x 5 priority patterns x every single-element operation x root/children/last/first-leaf/first-and-last-of-every-level x {new minimum, new maximum, unchanged}, remove additionally at exact current heap positions (incl. the last three slots, from both ends), and for the bulk operations with a flatness test of cost/n. A bounded enumeration decides the stated bound at every n of the ladder; it cannot prove an asymptotic statement."),
  "C08": ("E1 closed BFS with retain/retain_mut/iter_mut/pop_if as transitions + from every state every consumed prefix x write pattern x direction of iter_mut and every keep-mask x rewrite table of retain_mut",
          "Predicate call logs (each element exactly once), kept sets, written priorities, the element shown to pop_if predicates and the order invariant are checked after every such call from every reachable state and on deep seeds."),
  "C14": ("== / != on all ordered pairs of explored states (all arrangements, capacities, histories) and across two hashers; clone independence from every state",
-         "Equality must coincide with equality of the (item, priority) sets on every ordered pair of states of the closure (which makes it an equivalence on the explored set), also between queues with different BuildHashers; target.clone_from(&source) on every ordered pair must give a faithful, valid clone; clones have the same arrangement, behave identically and never share state with their source."),
+         "Equality must coincide with equality of the (item, priority) sets on every ordered pair of states of the closure (which makes it an equivalence on the explored set), also between queues with different BuildHashers; target.clone_from(&source) on every ordered pair must give a faithful, valid clone; clones have the same arrangement, behave identically (also when source and clone have different capacity histories, under appends of clashing queues) and never share state with their source."),
  "C17": ("E1 closed BFS with every capacity call (amounts 0..100 and 2^60..usize::MAX) as a transition + twin differential: every depth-2 continuation after the call vs. on the untouched queue",
          "Capacity calls may not change contents, extraction order or any later result (all depth-2 continuations compared with the untouched twin); capacity() lower bounds; try_reserve of unsatisfiable amounts returns Err and leaves the queue unchanged; reserve may only fail with the documented overflow panic; a grid of queues grown by pushes (never clones) x every reservation call x every small amount."),
  "C18": ("the same closed exploration under 5 BuildHashers (fixed sip, seeded, std RandomState twice, fnv via with_default_hasher, all-colliding), oracle on every transition, transition-graph fingerprints compared",
